@@ -13,6 +13,7 @@ import numpy as np
 import felupe as fem
 
 from .. import gen, jobsim, world
+from ..apicall import call as api
 from ..kernel import Discard, EventLog, InjectedFault, SimCallbackError, SimDiskError, Violation, close_exact_twin, pick
 from .C15 import defgrad
 
@@ -482,7 +483,7 @@ def run_roundtrip(doc, log):
             m_write(name)
         except KeyError as e:
             raise Discard("format-unsupported")
-    back = fem.mesh.read(name, dim=m.dim)
+    back = api("mesh.read", fem.mesh.read, doc["seed"], name, dim=m.dim)
     log.ev("roundtrip", fmt=fmt, cell_type=m.cell_type, points=m.points, cells=m.cells)
     if len(back.meshes) != 1:
         raise Violation(PROP, "round-trip", f"{len(back.meshes)} cell blocks read back", site=f"read.{fmt}")
@@ -494,7 +495,7 @@ def run_roundtrip(doc, log):
     if b.cells.shape != m.cells.shape or not np.array_equal(b.cells, m.cells):
         raise Violation(PROP, "round-trip", "cells differ after write/read", site=f"read.{fmt}.cells")
     # default arguments: dim=None keeps the (padded) coordinates of the file, cellblock selects
-    back2 = fem.mesh.read(name, cellblock=0)
+    back2 = api("mesh.read", fem.mesh.read, doc["seed"] + 1, name, cellblock=0)
     b2 = back2.meshes[0]
     if b2.cell_type != m.cell_type or not np.array_equal(b2.cells, m.cells):
         raise Violation(PROP, "round-trip", "cells differ after write/read with cellblock=0", site=f"read.{fmt}.cellblock")
@@ -560,6 +561,19 @@ def run_container(doc, log):
             raise Violation(PROP, "round-trip", "cell block changed type or shape in a merged read", site="read.container.cells")
         if not np.allclose(back.points[mk.cells], orig.points[orig.cells], rtol=0, atol=1e-7):
             raise Violation(PROP, "round-trip", "cell corner coordinates changed in a merged read", site="read.container.geometry")
+    # one cell block selected (by keyword or in the documented positional order): exactly that
+    # block, on the points of the file
+    npts_file = len(raw.points)
+    for blk, orig in enumerate((m, m2)):
+        one = api("mesh.read", fem.mesh.read, doc["seed"] + blk, name, cellblock=blk, dim=m.dim)
+        if len(one.meshes) != 1:
+            raise Violation(PROP, "round-trip", f"read(..., cellblock={blk}) of a file with two cell blocks returns {len(one.meshes)} meshes", site="read.container.cellblock")
+        mk = one.meshes[0]
+        if mk.cell_type != orig.cell_type or mk.cells.shape != orig.cells.shape:
+            raise Violation(PROP, "round-trip", f"read(..., cellblock={blk}) returns a block of type {mk.cell_type} / shape {mk.cells.shape}, written {orig.cell_type} / {orig.cells.shape}", site="read.container.cellblock")
+        if len(mk.points) != npts_file or not np.allclose(np.asarray(mk.points)[mk.cells], orig.points[orig.cells], rtol=0, atol=1e-7):
+            raise Violation(PROP, "round-trip", f"read(..., cellblock={blk}): {len(mk.points)} points for {npts_file} in the file, or cells paired with other points", site="read.container.cellblock")
+    log.count("single-block-of-container-read")
     log.count("merged-container-read")
     return {"signature": f"container|{m.cell_type}|{m2.cell_type}|{fmt}|{o['second']}", "nontrivial": True}
 
